@@ -405,8 +405,9 @@ def run_check(pid, tier):
     }
     if not ev['coverage']['samples']:
         ev['coverage']['samples'] = [{'note': 'no non-trivial run completed'}]
-    os.makedirs(os.path.join(core.VERIF_DIR, 'evidence'), exist_ok=True)
-    evp = os.path.join(core.VERIF_DIR, 'evidence', '%s.json' % pid)
+    evdir = os.environ.get('VERIF_EVIDENCE_DIR') or os.path.join(core.VERIF_DIR, 'evidence')
+    os.makedirs(evdir, exist_ok=True)
+    evp = os.path.join(evdir, '%s.json' % pid)
     with open(evp, 'w') as f:
         json.dump(jsonable(ev), f, indent=1, sort_keys=True)
     try:
